@@ -16,7 +16,7 @@ package vm
 //@ func vm.opValueChangeJournal(ctx, pc, interpreter, scope) (ret, err)
 //@   verify
 //@   safety [C03]
-//@   requires protocol [C03]: opProtocol(interpreter, scope) && len(scope.Stack.data) >= 4
+//@   requires protocol: opProtocol(interpreter, scope) && len(scope.Stack.data) >= 4
 //@   ghost slot0 u256 = top(scope, 0)
 //@   ghost off0 u256 = top(scope, 1)
 //@   ghost width0 u256 = top(scope, 2)
@@ -55,7 +55,7 @@ package vm
 //@ func vm.opReferenceChangeJournal(ctx, pc, interpreter, scope) (ret, err)
 //@   verify
 //@   safety [C03]
-//@   requires protocol [C03]: opProtocol(interpreter, scope) && len(scope.Stack.data) >= 2
+//@   requires protocol: opProtocol(interpreter, scope) && len(scope.Stack.data) >= 2
 //@   ghost slot0 u256 = top(scope, 0)
 //@   ghost typ0 u256 = top(scope, 1)
 //@   ghost n u64 = 0
@@ -82,10 +82,10 @@ package vm
 //@   assertcall (*vm.Tracer).SaveStateChange operands [C09]: $2 != nil && *$2 == slot0 && $3 == nil && $4 == be32(typ0)
 //@   assertcall (*vm.Tracer).SaveStateChange decoded-length [C09]: valid && (inplace ==> len($5) == uint64(slen)) && (!inplace ==> len($5) == uint64(llen) && math(reads) == 1 + (math(uint64(llen)) + 31) / 32)
 //@   assertcall (*vm.Tracer).SaveStateChange in-place-content [C09]: inplace ==> (forall i uint64 :: i < len($5) ==> $5[i] == bytei(w, i))
-//@   loop 0 invariant reads [C09]: reads == i + 1 && n == 0
-//@   loop 0 invariant cursor [C09]: *referenceSlot == base + u256(i)
-//@   loop 0 invariant collected [C03 C09]: math(len(stateBytes)) == 32 * math(i) && length >= 32 && (stateBytes == nil || loopfresh(stateBytes))
-//@   loop 0 invariant bound [C03 C09]: math(i) <= (math(length) + 31) / 32
+//@   loop 0 invariant reads: reads == i + 1 && n == 0
+//@   loop 0 invariant cursor: *referenceSlot == base + u256(i)
+//@   loop 0 invariant collected: math(len(stateBytes)) == 32 * math(i) && length >= 32 && (stateBytes == nil || loopfresh(stateBytes))
+//@   loop 0 invariant bound: math(i) <= (math(length) + 31) / 32
 //@   ensures valid-journals-once [C09]: valid ==> n == 1 && err == saverr
 //@   ensures invalid-rejected [C09 C12]: !valid ==> n == 0 && err != nil && err != errStopToken && err != ErrExecutionReverted
 //@   ensures no-return-data [C12]: ret == nil
@@ -100,7 +100,7 @@ package vm
 //@ func vm.opReferenceIndexValueStorageJournal
 //@   verify
 //@   safety [C03]
-//@   requires protocol [C03]: opProtocol(interpreter, scope) && len(scope.Stack.data) >= 6
+//@   requires protocol: opProtocol(interpreter, scope) && len(scope.Stack.data) >= 6
 //@   witness s0: top(scope, 0)
 //@   witness s1: top(scope, 1)
 //@   witness s2: top(scope, 2)
@@ -114,7 +114,7 @@ package vm
 //@ func vm.opValueIndexValueStorageJournal
 //@   verify
 //@   safety [C03]
-//@   requires protocol [C03]: opProtocol(interpreter, scope) && len(scope.Stack.data) >= 6
+//@   requires protocol: opProtocol(interpreter, scope) && len(scope.Stack.data) >= 6
 //@   witness s0: top(scope, 0)
 //@   witness s1: top(scope, 1)
 //@   witness s2: top(scope, 2)
@@ -128,7 +128,7 @@ package vm
 //@ func vm.opReferenceIndexReferenceStorageJournal
 //@   verify
 //@   safety [C03]
-//@   requires protocol [C03]: opProtocol(interpreter, scope) && len(scope.Stack.data) >= 5
+//@   requires protocol: opProtocol(interpreter, scope) && len(scope.Stack.data) >= 5
 //@   witness s0: top(scope, 0)
 //@   witness s1: top(scope, 1)
 //@   witness s2: top(scope, 2)
@@ -141,7 +141,7 @@ package vm
 //@ func vm.opValueIndexReferenceStorageJournal
 //@   verify
 //@   safety [C03]
-//@   requires protocol [C03]: opProtocol(interpreter, scope) && len(scope.Stack.data) >= 5
+//@   requires protocol: opProtocol(interpreter, scope) && len(scope.Stack.data) >= 5
 //@   witness s0: top(scope, 0)
 //@   witness s1: top(scope, 1)
 //@   witness s2: top(scope, 2)
@@ -154,7 +154,7 @@ package vm
 //@ func vm.opReferenceStateVarJournal
 //@   verify
 //@   safety [C03]
-//@   requires protocol [C03]: opProtocol(interpreter, scope) && len(scope.Stack.data) >= 3
+//@   requires protocol: opProtocol(interpreter, scope) && len(scope.Stack.data) >= 3
 //@   witness s0: top(scope, 0)
 //@   witness s1: top(scope, 1)
 //@   witness s2: top(scope, 2)
@@ -165,7 +165,7 @@ package vm
 //@ func vm.opValueStateVarJournal
 //@   verify
 //@   safety [C03]
-//@   requires protocol [C03]: opProtocol(interpreter, scope) && len(scope.Stack.data) >= 4
+//@   requires protocol: opProtocol(interpreter, scope) && len(scope.Stack.data) >= 4
 //@   witness s0: top(scope, 0)
 //@   witness s1: top(scope, 1)
 //@   witness s2: top(scope, 2)
@@ -177,7 +177,7 @@ package vm
 //@ func vm.loadDataFromMem
 //@   verify
 //@   safety [C03]
-//@   requires args [C03]: memPtr != nil && mem != nil
+//@   requires args: memPtr != nil && mem != nil
 //@   witness ptr: *memPtr
 //@   witness-bytes mem 512: mem.store
 //@ end
@@ -185,7 +185,7 @@ package vm
 //@ func vm.loadParamBytes
 //@   verify
 //@   safety [C03 C14]
-//@   requires idx [C14]: index == 0 || index == 1
+//@   requires idx: index == 0 || index == 1
 //@   witness-bytes input 256: input
 //@   witness index: index
 //@ end
@@ -205,7 +205,7 @@ package vm
 //@ func (*vm.contextWriter).Run
 //@   verify
 //@   safety [C03 C14]
-//@   requires recv [C03]: c != nil
+//@   requires recv: c != nil
 //@   witness-bytes input 512: input
 //@   witness ctxnil: c.ctx == nil
 //@ end
@@ -220,8 +220,8 @@ package vm
 //@ func (*vm.Memory).Copy(m, dst, src, len)
 //@   verify
 //@   safety [C03 C15]
-//@   requires recv [C03]: m != nil
-//@   requires in-memory [C03 C15]: len == 0 || (math(src) + math(len) <= math(len(m.store)) && math(dst) + math(len) <= math(len(m.store)))
+//@   requires recv: m != nil
+//@   requires in-memory: len == 0 || (math(src) + math(len) <= math(len(m.store)) && math(dst) + math(len) <= math(len(m.store)))
 //@   ensures memmove [C15]: forall i uint64 :: i < len ==> m.store[dst + i] == old(m.store[src + i])
 //@   ensures rest-unchanged [C15]: forall i uint64 :: i < uint64(len(m.store)) && !(i >= dst && i - dst < len) ==> m.store[i] == old(m.store[i])
 //@   ensures same-size [C15]: sameslice(m.store, old(m.store))
@@ -235,7 +235,7 @@ package vm
 //@ func vm.memoryMcopy(stack) (size, overflow)
 //@   verify
 //@   safety [C03 C15]
-//@   requires stack [C03]: stack != nil && len(stack.data) >= 3
+//@   requires stack: stack != nil && len(stack.data) >= 3
 //@   let d = stack.data[len(stack.data) - 1]
 //@   let sr = stack.data[len(stack.data) - 2]
 //@   let n = stack.data[len(stack.data) - 3]
@@ -248,8 +248,8 @@ package vm
 //@ func vm.opMcopy(ctx, pc, interpreter, scope) (ret, err)
 //@   verify
 //@   safety [C03 C15]
-//@   requires protocol [C03]: opProtocol(interpreter, scope) && len(scope.Stack.data) >= 3
-//@   requires memory-expanded [C03 C15]: top(scope, 2) == 0 || (math(top(scope, 0)) + math(top(scope, 2)) <= math(len(scope.Memory.store)) && math(top(scope, 1)) + math(top(scope, 2)) <= math(len(scope.Memory.store)))
+//@   requires protocol: opProtocol(interpreter, scope) && len(scope.Stack.data) >= 3
+//@   requires memory-expanded: top(scope, 2) == 0 || (math(top(scope, 0)) + math(top(scope, 2)) <= math(len(scope.Memory.store)) && math(top(scope, 1)) + math(top(scope, 2)) <= math(len(scope.Memory.store)))
 //@   ghost d0 u256 = top(scope, 0)
 //@   ghost s0_ u256 = top(scope, 1)
 //@   ghost n0 u256 = top(scope, 2)
@@ -269,7 +269,7 @@ package vm
 //@ func vm.opTload
 //@   verify
 //@   safety [C03 C15]
-//@   requires protocol [C03]: opProtocol(interpreter, scope) && len(scope.Stack.data) >= 1
+//@   requires protocol: opProtocol(interpreter, scope) && len(scope.Stack.data) >= 1
 //@   witness s0: top(scope, 0)
 //@   witness-bytes mem 512: scope.Memory.store
 //@   witness readonly: interpreter.readOnly
@@ -278,7 +278,7 @@ package vm
 //@ func vm.opTstore
 //@   verify
 //@   safety [C03 C15]
-//@   requires protocol [C03]: opProtocol(interpreter, scope) && len(scope.Stack.data) >= 2
+//@   requires protocol: opProtocol(interpreter, scope) && len(scope.Stack.data) >= 2
 //@   witness s0: top(scope, 0)
 //@   witness s1: top(scope, 1)
 //@   witness-bytes mem 512: scope.Memory.store
